@@ -14,6 +14,9 @@
 (*   [k |-> "self", name, props, sh]          [name p=v ... /]                *)
 (*   [k |-> "select"|"plural"|"ordinal", props]   self-closing replacement    *)
 (*   [k |-> "nomarkup", raw |-> cps, close |-> "name"|"all"]                  *)
+(*   [k |-> "ropen", rk |-> "select"|"plural"|"ordinal", props, raw, close]   *)
+(*       a replacement marker in open form: [select ...]raw[/select] or ...[/] *)
+(*       - the replacement text stands for marker and contents                *)
 (*   [k |-> "mal", raw |-> cps]               malformed fragment (C14, C15)   *)
 (* prop  = [n |-> cps, v |-> value]                                           *)
 (* value = [t |-> "int", i] | [t |-> "dec", i, f, k]  (i.f, f on k digits)    *)
@@ -76,6 +79,8 @@ S_False == <<70, 97, 108, 115, 101>>
 Reserved == {S_nomarkup, S_select, S_plural, S_ordinal, S_character}
 ReplKinds == {"select", "plural", "ordinal"}
 ReplName(k) == IF k = "select" THEN S_select ELSE IF k = "plural" THEN S_plural ELSE S_ordinal
+RawKinds == {"nomarkup", "ropen"}       \* items whose contents are read as raw text up to their close marker
+AsRepl(it) == [k |-> it.rk, props |-> it.props]
 
 \* ------------------------------------------------------------------- values
 RECURSIVE Pow10(_)
@@ -133,6 +138,7 @@ ItemChars(it) == CASE it.k \in {"ch", "esc"} -> <<it.c>>
                    [] it.k = "pfx"           -> PfxChars(it)
                    [] it.k = "nomarkup"      -> it.raw
                    [] it.k \in ReplKinds     -> Replacement(it).text
+                   [] it.k = "ropen"         -> Replacement(AsRepl(it)).text
                    [] OTHER                  -> <<>>
 
 \* length of a canonical rendering of the item (only for the model's own source
@@ -152,6 +158,8 @@ SrcLen(it) == CASE it.k = "ch" -> 1
                 [] it.k = "close" -> 3 + Len(it.name)
                 [] it.k = "closeall" -> 3
                 [] it.k = "nomarkup" -> 10 + Len(it.raw) + (IF it.close = "all" THEN 3 ELSE 11)
+                [] it.k = "ropen" -> 2 + Len(ReplName(it.rk)) + PropsLen(it.props) + Len(it.raw)
+                                     + (IF it.close = "all" THEN 3 ELSE 3 + Len(ReplName(it.rk)))
                 [] OTHER -> Len(it.raw)
 
 (* ========================================================================= *)
@@ -188,6 +196,13 @@ StepA(st, it) ==
              st2 == EmitA(st1, it.raw, FALSE, 10 + Len(it.raw))
          IN AddMark(st2, Mark(IF it.close = "all" THEN "closeall" ELSE "close", S_nomarkup, <<>>, st2),
                     SrcLen(it) - 10 - Len(it.raw))
+    [] it.k = "ropen" ->
+         LET r == Replacement(AsRepl(it))  nm == ReplName(it.rk) IN
+         IF ~r.ok THEN [st EXCEPT !.err = TRUE, !.src = @ + SrcLen(it)]
+         ELSE LET st1 == AddMark(st, Mark("open", nm, it.props, st), 0)
+                  st2 == EmitA(st1, r.text, FALSE, 2 + Len(nm) + PropsLen(it.props) + Len(it.raw))
+              IN AddMark(st2, Mark(IF it.close = "all" THEN "closeall" ELSE "close", nm, <<>>, st2),
+                         IF it.close = "all" THEN 3 ELSE 3 + Len(nm))
     [] OTHER -> [st EXCEPT !.err = TRUE, !.src = @ + SrcLen(it)]
 
 RECURSIVE FoldA(_, _, _)
@@ -297,13 +312,14 @@ OutB(items) == Flat([i \in DOMAIN items |->
 Closers(items, o) == {j \in (o + 1)..Len(items) :
                         \/ items[j].k = "close" /\ items[j].name = items[o].name
                         \/ items[j].k = "closeall"
-                        \/ items[j].k = "nomarkup" /\ items[j].close = "all"}
+                        \/ items[j].k \in RawKinds /\ items[j].close = "all"}
 Closer(items, o) == IF Closers(items, o) = {} THEN 0 ELSE Min(Closers(items, o))
-CloseStamp(items, j) == IF items[j].k = "nomarkup" THEN 3 * j + 2 ELSE 3 * j
+CloseStamp(items, j) == IF items[j].k \in RawKinds THEN 3 * j + 2 ELSE 3 * j
 
 ErrB(items) == \E i \in DOMAIN items :
                  \/ items[i].k = "mal"
                  \/ items[i].k \in ReplKinds /\ ~Replacement(items[i]).ok
+                 \/ items[i].k = "ropen" /\ ~Replacement(AsRepl(items[i])).ok
                  \/ items[i].k = "close"
                     /\ ~\E o \in 1..(i - 1) : items[o].k = "open" /\ items[o].name = items[i].name
                                               /\ Closer(items, o) = i
@@ -323,6 +339,8 @@ ItemAttrB(items, out, T, i) ==
             <<[name |-> ReplName(it.k), pos |-> Before(3 * i), len |-> 0, props |-> PropSet(it.props)]>>
        [] it.k = "nomarkup" ->
             <<[name |-> S_nomarkup, pos |-> Before(3 * i), len |-> Between(3 * i, 3 * i + 2), props |-> {}]>>
+       [] it.k = "ropen" ->
+            <<[name |-> ReplName(it.rk), pos |-> Before(3 * i), len |-> Between(3 * i, 3 * i + 2), props |-> PropSet(it.props)]>>
        [] it.k = "pfx" /\ i = 1 ->
             <<[name |-> S_character, pos |-> Before(3), len |-> Between(3, 5),
                props |-> {[n |-> S_name, v |-> [t |-> "str", s |-> it.name]]}]>>
@@ -359,6 +377,7 @@ ItemCps(it) == CASE it.k \in {"ch", "esc"} -> <<it.c>>
                  [] it.k = "close" -> it.name
                  [] it.k \in ReplKinds -> PropsCps(it.props)
                  [] it.k = "nomarkup" -> it.raw
+                 [] it.k = "ropen" -> PropsCps(it.props) \o it.raw
                  [] OTHER -> <<>>
 
 DistinctPropNames(ps) == \A i, j \in DOMAIN ps : i # j => ps[i].n # ps[j].n
@@ -376,7 +395,7 @@ Discipline(items, i, open) ==
                           /\ Discipline(items, i + 1, Append(open, it.name))
       [] it.k = "close" -> InSeq(open, it.name) /\ Discipline(items, i + 1, RemoveOne(open, it.name))
       [] it.k = "closeall" -> Discipline(items, i + 1, <<>>)
-      [] it.k = "nomarkup" -> Discipline(items, i + 1, IF it.close = "all" THEN <<>> ELSE open)
+      [] it.k \in RawKinds -> Discipline(items, i + 1, IF it.close = "all" THEN <<>> ELSE open)
       [] it.k = "self" -> it.name \notin Reserved /\ it.name # <<>> /\ Discipline(items, i + 1, open)
       [] OTHER -> Discipline(items, i + 1, open)
 
@@ -403,6 +422,13 @@ ItemOK(items, i) ==
             Prop(it.props, S_value).t = "dec" => \A j \in DOMAIN Display(Prop(it.props, c.key)) :
                                                      Display(Prop(it.props, c.key))[j] # 37
     [] it.k = "nomarkup" -> \A j \in DOMAIN it.raw : it.raw[j] \notin {47, 92}
+    [] it.k = "ropen" ->
+         /\ \A j \in DOMAIN it.raw : it.raw[j] \notin {47, 92}
+         /\ DistinctPropNames(it.props) /\ ~HasProp(it.props, S_trimwhitespace)
+         /\ Replacement(AsRepl(it)).ok
+         /\ LET c == ReplCase(AsRepl(it)) IN
+            Prop(it.props, S_value).t = "dec" => \A j \in DOMAIN Display(Prop(it.props, c.key)) :
+                                                     Display(Prop(it.props, c.key))[j] # 37
     [] it.k \in {"close", "closeall"} -> TRUE
     [] OTHER -> FALSE
 
@@ -420,7 +446,7 @@ NoSameNameNesting(items, i, open) ==
     CASE it.k = "open" -> it.name \notin open /\ NoSameNameNesting(items, i + 1, open \cup {it.name})
       [] it.k = "close" -> NoSameNameNesting(items, i + 1, open \ {it.name})
       [] it.k = "closeall" -> NoSameNameNesting(items, i + 1, {})
-      [] it.k = "nomarkup" -> NoSameNameNesting(items, i + 1, IF it.close = "all" THEN {} ELSE open)
+      [] it.k \in RawKinds -> NoSameNameNesting(items, i + 1, IF it.close = "all" THEN {} ELSE open)
       [] OTHER -> NoSameNameNesting(items, i + 1, open)
 
 (* ========================================================================= *)
